@@ -55,7 +55,7 @@ def textbook(p, m):
 
 def run(c):
     p = [Fraction(x) for x in c["p"]]
-    a = np.array([float(x) for x in p])
+    a = interned(np.array([float(x) for x in p]))
     a0 = a.copy()
     r = guarded(lambda: [float(v) for v in adjust_p(a, c["m"])])
     unmod = bool((a == a0).all())
